@@ -4,6 +4,7 @@ package rules
 
 import (
 	"go/ast"
+	"go/parser"
 	"go/token"
 	"go/types"
 	"strings"
@@ -818,5 +819,211 @@ func c14R18(p *core.Program, r *core.Report, fs []*core.Func) {
 	}
 	if n == 0 {
 		r.Anchor(rule, "Result literals with a Value in the resolver")
+	}
+}
+
+// c11R14: "embedded fields": whatever the interface arm of the type printer returns as a constant is a type *name*
+// (`any`, `error`) - an embedded field must be a type name, `interface{}` is the same type and does not parse there.
+func c11R14(p *core.Program, r *core.Report, f *core.Func, cc *ast.CaseClause) {
+	const rule = "R14"
+	r.Floor(rule, 1)
+	if cc == nil {
+		r.Anchor(rule, "interface arm of TypeLit")
+		return
+	}
+	info := f.Info()
+	n := 0
+	ast.Inspect(cc, func(m ast.Node) bool {
+		ret, ok := m.(*ast.ReturnStmt)
+		if !ok || len(ret.Results) != 1 {
+			return true
+		}
+		s, isC := core.ConstString(info, ret.Results[0])
+		if !isC {
+			return true
+		}
+		n++
+		r.Check(token.IsIdentifier(s), rule, f, "the interface arm answers a type name: "+s, ret.Pos(), "`"+s+"` is an identifier",
+			"the interface arm renders `"+s+"`, which is not a type name: as the type of an embedded field (`struct{ any }`) the rendered literal does not parse")
+		return true
+	})
+	if n == 0 {
+		r.Anchor(rule, "constant results of the interface arm")
+	}
+}
+
+// c16R15: the emitted helper `runtimeDoc(v, prefix, names...)` hands on what the embedded value's RuntimeDoc answered:
+// the test that follows `doc, ok := c.RuntimeDoc(names...)` is `ok` alone (an existing field without doc lines answers
+// `[]string{}, true`, and so must the struct that embeds its owner). R16: in the struct arm of the generator every
+// emitted RuntimeDoc method looks at `names` (a struct never answers an unknown name with its own doc).
+func c16R15(p *core.Program, r *core.Report) {
+	const rule = "R15"
+	r.Floor(rule, 1)
+	n := 0
+	for _, f := range p.Funcs() {
+		if core.RelPkg(f.Pkg.PkgPath) != "devpkg/runtimedocgen" || f.Body == nil || f.Lit != nil {
+			continue
+		}
+		info := f.Info()
+		ast.Inspect(f.Body, func(m ast.Node) bool {
+			lit, ok := m.(*ast.BasicLit)
+			if !ok || lit.Kind != token.STRING {
+				return true
+			}
+			s, isC := core.ConstString(info, lit)
+			if !isC || !strings.Contains(s, "func runtimeDoc(") {
+				return true
+			}
+			n++
+			file, err := parser.ParseFile(token.NewFileSet(), "helper.go", "package p\n"+s, 0)
+			if err != nil {
+				r.Bad(rule, f, "the emitted helper hands on the embedded value's answer", lit.Pos(), "the helper text does not parse: "+err.Error())
+				return true
+			}
+			good, found := true, 0
+			var check func(list []ast.Stmt)
+			isOK := func(e ast.Expr) bool { id, isID := ast.Unparen(e).(*ast.Ident); return isID && id.Name == "ok" }
+			bindsFromRuntimeDoc := func(st ast.Stmt) bool {
+				as, isAs := st.(*ast.AssignStmt)
+				if !isAs || len(as.Rhs) != 1 || len(as.Lhs) != 2 {
+					return false
+				}
+				c, isCall := as.Rhs[0].(*ast.CallExpr)
+				if !isCall {
+					return false
+				}
+				sel, isSel := c.Fun.(*ast.SelectorExpr)
+				return isSel && sel.Sel.Name == "RuntimeDoc"
+			}
+			check = func(list []ast.Stmt) {
+				for i, st := range list {
+					switch x := st.(type) {
+					case *ast.IfStmt:
+						if x.Init != nil && bindsFromRuntimeDoc(x.Init) {
+							found++
+							if !isOK(x.Cond) {
+								good = false
+							}
+						}
+						if i > 0 && bindsFromRuntimeDoc(list[i-1]) {
+							found++
+							if !isOK(x.Cond) {
+								good = false
+							}
+						}
+						check(x.Body.List)
+						if eb, isBlock := x.Else.(*ast.BlockStmt); isBlock {
+							check(eb.List)
+						}
+					case *ast.BlockStmt:
+						check(x.List)
+					}
+				}
+			}
+			for _, d := range file.Decls {
+				if fd, isFD := d.(*ast.FuncDecl); isFD && fd.Name.Name == "runtimeDoc" && fd.Body != nil {
+					check(fd.Body.List)
+				}
+			}
+			r.Check(good && found >= 1, rule, f, "the emitted helper hands on the embedded value's answer", lit.Pos(), "`doc, ok := c.RuntimeDoc(names...)` is followed by `if ok`",
+				"the emitted runtimeDoc helper does not decide on `ok` alone after asking the embedded value: a field of an embedded struct that exists but has no doc lines (`[]string{}, true`) is answered `nil, false` by the struct that embeds it")
+			return true
+		})
+	}
+	if n == 0 {
+		r.Anchor(rule, "the text of the emitted runtimeDoc helper")
+	}
+	// R16
+	const rule2 = "R16"
+	r.Floor(rule2, 1)
+	n2 := 0
+	for _, s := range templateSites(p) {
+		if core.RelPkg(s.F.Pkg.PkgPath) != "devpkg/runtimedocgen" || !s.IsConst || !strings.Contains(s.Format, "RuntimeDoc(names ...string)") {
+			continue
+		}
+		// inside the *types.Struct arm of a type switch?
+		inStruct := false
+		for _, nd := range core.PathTo(s.F.Root().Body, s.Call) {
+			if cc, isCC := nd.(*ast.CaseClause); isCC {
+				for _, e := range cc.List {
+					if t := s.F.Info().TypeOf(e); t != nil && strings.HasSuffix(types.TypeString(t, nil), "go/types.Struct") {
+						inStruct = true
+					}
+				}
+			}
+		}
+		if !inStruct {
+			continue
+		}
+		n2++
+		r.Check(strings.Contains(s.Format, "len(names)"), rule2, s.F, "a struct's RuntimeDoc looks at the names it is asked about", s.Call.Pos(), "the template tests len(names)",
+			"a template of the struct arm emits a RuntimeDoc that ignores `names`: for such a struct every name - existing field or not - is answered with the type's own doc and true instead of nil, false")
+	}
+	if n2 == 0 {
+		r.Anchor(rule2, "RuntimeDoc templates in the struct arm of the runtimedoc generator")
+	}
+}
+
+// c17R19: the copy statements of the fields are rendered one after the other with nothing in between (templates lose
+// their leading line breaks): every constant template the field helper returns ends in a line break, so that the next
+// statement starts on a line of its own (a statement glued behind a `// comment` is swallowed by it).
+func c17R19(p *core.Program, r *core.Report) {
+	const rule = "R19"
+	r.Floor(rule, 4)
+	n := 0
+	for _, s := range templateSites(p) {
+		if core.RelPkg(s.F.Pkg.PkgPath) != "devpkg/deepcopygen/helper" || !s.IsConst || s.Kind != "T" {
+			continue
+		}
+		if root := s.F.Root(); root.Decl == nil || root.Decl.Name.Name != "createFieldSnippet" {
+			continue
+		}
+		n++
+		r.Check(strings.HasSuffix(s.Format, "\n"), rule, s.F, "a field's copy statement ends its line", s.Call.Pos(), "the template ends in a line break",
+			"the template `"+strings.TrimSpace(s.Format)+"` does not end in a line break: the copy statement of the next field is rendered on the same line (behind a `//` comment it is not executed at all - the field is zero in the copy)")
+	}
+	if n == 0 {
+		r.Anchor(rule, "templates of createFieldSnippet")
+	}
+}
+
+// c03R21: the printer asks the namer about the reference it was given: every return of (*Dumper).Name is the namer's
+// answer for the function's own parameter (a path that is "cleaned up" on the way - a prefix cut off with a cutset that
+// contains digits, say - registers another package than the one the text refers to).
+func c03R21(p *core.Program, r *core.Report) {
+	const rule = "R21"
+	r.Floor(rule, 1)
+	f := p.FuncByName("pkg/gengo/internal", "(*Dumper).Name")
+	if f == nil {
+		r.Anchor(rule, "pkg/gengo/internal.(*Dumper).Name")
+		return
+	}
+	f = flatten(p, f)
+	info := f.Info()
+	n := 0
+	ast.Inspect(f.Body, func(m ast.Node) bool {
+		if _, isLit := m.(*ast.FuncLit); isLit {
+			return false
+		}
+		ret, ok := m.(*ast.ReturnStmt)
+		if !ok || len(ret.Results) != 1 {
+			return true
+		}
+		n++
+		e, _ := core.Resolve(info, f.Body, ret.Results[0])
+		good := false
+		if c, isCall := ast.Unparen(e).(*ast.CallExpr); isCall && len(c.Args) == 1 && strings.HasSuffix(core.CalleeName(info, c), ".Name") {
+			if v := core.VarOf(info, c.Args[0]); v != nil && isParamOf(f, v) {
+				if _, isNamer := info.TypeOf(recvOf(c)).Underlying().(*types.Interface); isNamer || recvOf(c) != nil {
+					good = true
+				}
+			}
+		}
+		r.Check(good, rule, f, "the namer is asked about the reference as it was given: "+core.ExprStr(ret), ret.Pos(), "return <namer>.Name(<the parameter>)",
+			"`"+core.ExprStr(ret)+"` is not the namer's answer for the reference the printer was given: the package that is registered (and imported) is then not the one the rendered text refers to")
+		return true
+	})
+	if n == 0 {
+		r.Anchor(rule, "returns of (*Dumper).Name")
 	}
 }
